@@ -46,7 +46,7 @@ CLAIMED["C02"] = dict(
 CLAIMED["C07"] = dict(
     text="Theorems for every fault sequence (the oracle may fail at any set of positions): a failed or abandoned trial "
          "leaves iterate, path, counters of accepted steps, penalty and policy state unchanged, is announced as "
-         "(current, current, not accepted), counts one iteration and doubles lambda; the returned iterate is the start or "
+         "(current, current, not accepted), counts one iteration and doubles lambda (an abandoned one keeps lambda); the returned iterate is the start or "
          "the `next` of a step announced as accepted; the run ends with a status or the deliberate lambda error (no "
          "internal assertion of a penalty policy is reachable); Optimal still implies total_res <= opt_tol. Partial: "
          "which real exception reaches compute_step's handlers is checked by fault-injection correspondence, not proved.",
@@ -57,8 +57,9 @@ CLAIMED["C08"] = dict(
          "the top of the loop with counter k (iterate, counters, announced steps, trials, path, model times, lambda, rho), "
          "status IterationLimit; every k up to the natural length is such a point; histories only grow (prefix). Deadline "
          "at a top-of-loop read returns the state as is; a deadline inside a trial abandons it without any trace in "
-         "iterate/path/counters and (monotone clock) the next test stops the solve. The corner 2*lambda >= lamb_max is "
-         "refuted by a computed witness (known finding F10).",
+         "iterate/path/counters/lambda, the body runs to its end and (monotone clock) the next test returns that very point "
+         "with TimeLimit / IterationLimit (C08_abandoned_trial_then_stop; the former corner 2*lambda >= lamb_max, found by a "
+         "computed counter-witness in the model and replayed on the code, was repaired in /repo: F10).",
     note=LOOP_NOTE, technique=LOOP_TECH, ref="4/C08")
 CLAIMED["C09"] = dict(
     text="Theorem (lock-step simulation): two solves differing only in display interval and path collection, under two "
@@ -80,8 +81,10 @@ CLAIMED["C15"] = dict(
     text="Theorems for every oracle trace: the first trial uses dt = 1/lamb_init and each later one dt = 1/(lambda returned "
          "by the previous trial); every trial followed by another returned lambda < lamb_max, otherwise the solve ends "
          "with the dedicated error with iterate/path/counters untouched; a trial not finally adopted keeps the iterate; "
-         "a failed trial returns 2*lambda > lambda. Controller-level facts (exact controller accepts only below "
-         "newton_tol etc.) are tied by the stepctl correspondence unit.",
+         "a failed trial returns 2*lambda > lambda. Controller level, for every Newton stream / PI output / deadline pattern: the "
+         "exact controller accepts only below newton_tol; whatever is not accepted comes with a strictly larger lambda, the one "
+         "named exception being the exact controller's trial abandoned at a deadline test (unchanged iterate and lambda; the "
+         "solve then ends); lambda stays positive; tied by the stepctl correspondence unit (incl. Precision.Single).",
     note=LOOP_NOTE, technique=LOOP_TECH, ref="4/C15")
 CLAIMED["C16"] = dict(
     text="Theorems: every policy only raises its own penalty and announces exactly it; constant policy never changes; "
@@ -162,9 +165,9 @@ CLAIMED["C05"] = dict(
          "slack box; loop invariant for every oracle trace (current iterate and every announced step keep any property all "
          "step results have); abstract argument over construction sites. Per run: every Iterate/StepResult construction site "
          "and every callback call site in /repo is of a known kind (start, clipped step, copy, clip; via an Iterate, "
-         "forwarded, start slack, scaling point, derivative check), the only unclipped site being the Globalized line search "
-         "(known finding F8). compute_xn tied on arbitrary binary64 inputs. Partial: relative to the site inventory; "
-         "Precision.Single not covered (F11).",
+         "forwarded, start slack, scaling point, derivative check) and none is built from an unclipped expression (the "
+         "Globalized line search was one: F8, repaired in /repo). compute_xn tied on arbitrary binary64 inputs. Partial: relative "
+         "to the site inventory; Precision.Single not covered (F11).",
     note=FACT_NOTE, technique=FACT_TECH, ref="4/C05")
 CLAIMED["C06"] = dict(
     text="Theorems: the loop model ends with a status or the deliberate lambda error for every oracle trace (penalty "
